@@ -88,7 +88,9 @@ TraceBlockMsg ==
          d == Due(br)
      IN
      /\ Chk((B("queue") /\ Ev.otherOk) => DeliveredOk(Ev), "DELIVERED-MISMATCH", Due(br))
-     /\ Chk((B("blockmsg") /\ Ev.otherOk) => (Ev.ok = ~S2.err), "BLOCKMSG-VERDICT", ~S2.err)
+     /\ Chk((B("blockmsg") /\ Ev.otherOk /\ ~Ev.ou) => (Ev.ok = ~S2.err), "BLOCKMSG-VERDICT", ~S2.err)
+     \* ou ("others unknown"): possibly failing requests of another module ride in the same block message (system histories)
+     /\ Chk((B("blockmsg") /\ Ev.ou) => (Ev.ok => ~S2.err), "BLOCKMSG-ACCEPTED-BAD-REQUESTS", ~S2.err)
      /\ IF Ev.ok
           THEN /\ br' = [S2 EXCEPT !.err = FALSE]
                /\ hist' = [hist EXCEPT !.credited = @ \o d.deposits,
